@@ -48,6 +48,7 @@ type op struct {
 	Call   int64 `json:"call"`
 	Ret    int64 `json:"ret"` // 0 = outcome unknown
 	Phase  int   `json:"phase"`
+	Step   int   `json:"step"` // 0 traffic during the fault, 1 quiescent (one store down), 2 traffic while it rejoins, 3 quiescent (healed)
 }
 
 type recorder struct {
@@ -96,27 +97,6 @@ func seriesName(w, s int) string { return fmt.Sprintf("s=%d,w=%d", s, w) }
 
 func line(w, se int, t, v int64) string {
 	return fmt.Sprintf("m,w=%d,s=%d fi=%di,fs=\"v%d\" %d\n", w, se, v, v, t)
-}
-
-// leaderOf returns the index of the store that reports itself raft leader for db (or -1).
-func leaderOf(cl *proc.Cluster, down int) int {
-	for i := 0; i < 3; i++ {
-		if i == down {
-			continue
-		}
-		st, err := cl.StoreState(i)
-		if err != nil {
-			continue
-		}
-		pts, _ := st["partitions"].([]any)
-		for _, p := range pts {
-			m, _ := p.(map[string]any)
-			if m["db"] == db && m["leader"] == true {
-				return i
-			}
-		}
-	}
-	return -1
 }
 
 func (rn *runner) runSchedule(sc schedule, worker int) {
